@@ -3,7 +3,10 @@
 The deciding monitor is mon.contracts: post-conditions attached (icontract) to MAB.predict and
 MAB.predict_expectations, evaluated on every call made by this dedicated workload (and, as side alarms, by
 every other check's workload).  This module adds the arm-list shadow: after every recorded add_arm /
-remove_arm event the bandit's arm list must equal the list derived from the events alone."""
+remove_arm event the bandit's arm list must equal the list derived from the events alone.
+
+As built: Workload extras: bandits with a single arm (built so or shrunk by remove_arm), 17-19 arms, query batches up to 130 rows and one batch of 32769-72768 rows.
+"""
 from mon import env  # noqa: F401
 
 from mon import gen
